@@ -96,6 +96,16 @@ def certify(impl, ref, variables, choice=0, tvars=('t',)):
     for i, v in enumerate(variables):
         n = deg[v] + 1
         grids.append(tpool(choice, n) if v in tvars else zpool(choice, i, n))
+    if not res['certificate']:
+        # no degree certificate (the implementation branched on a value or raised on the tracking elements): the grid
+        # below is then a plain exhaustive test, not a proof; its assumed degrees make it explode for many variables
+        # (3^9 x 9 points of exact arithmetic at degree 8), so it is cut down to two values per control point
+        size = 1
+        for g in grids:
+            size *= len(g)
+        if size > 20000:
+            grids = [g if v in tvars else g[:2] for g, v in zip(grids, variables)]
+            res['error'] = (res['error'] or '') + ' [uncertified grid reduced to 2 values per control point]'
     for combo in itertools.product(*grids):
         kw = dict(zip(variables, combo))
         res['grid_points'] += 1
